@@ -114,7 +114,14 @@ def declaredOp (j : Json) : R Json := do
   let h ← hyper (← field j "hyper")
   pure (Json.mkObj [("pairs", Json.arr ((declared cfg h).map (fun p => Json.arr #[jf p.1, jf p.2])).toArray)])
 
+/-- op `Lens.keys`: the lens' own parameters (static) -/
+def keysOp (j : Json) : R Json := do
+  let cfg ← lensCfg (← field j "cfg")
+  let h ← hyper (← field j "hyper")
+  pure (Json.mkObj [("keys", Json.arr ((realisedKeys cfg h).map Json.str).toArray)])
+
 def ops : List (String × (Json → R Json)) :=
-  [("Lens.single", single), ("Lens.hyper", hyperOp), ("Lens.displace", displaceOp), ("Lens.declared", declaredOp)]
+  [("Lens.single", single), ("Lens.hyper", hyperOp), ("Lens.displace", displaceOp), ("Lens.declared", declaredOp),
+   ("Lens.keys", keysOp)]
 
 end HierArc.Drv.Lens
